@@ -473,3 +473,73 @@ func isStrSliceT(t types.Type) bool {
 	b, ok := s.Elem().Underlying().(*types.Basic)
 	return ok && b.Kind() == types.String
 }
+
+// c18NilMapWrites (R18.11): no write to a map that is nil on some incoming edge.
+func c18NilMapWrites(c *Ctx, r *Report) {
+	r.Rule("R18.11", "no write to a possibly nil map: for every map update m[k] = v outside the sub-entry-points, m is not a value that is the nil constant on one of the control-flow edges that merge into it (a variable declared nil and assigned only in one branch) unless a test m != nil dominates the update — writing to a nil map is a Go panic, and the branch that leaves it nil is typically the rarely taken one (an existing group seen again with a new field)")
+	n, nphi := 0, 0
+	for _, fn := range c.ModuleFunctions() {
+		if fn.Blocks == nil {
+			continue
+		}
+		pk := ""
+		if fn.Pkg != nil {
+			pk = fn.Pkg.Pkg.Path()
+		}
+		if subEntrypointPkg(pk) {
+			continue
+		}
+		idx := 0
+		for _, b := range fn.Blocks {
+			for _, in := range b.Instrs {
+				mu, ok := in.(*ssa.MapUpdate)
+				if !ok {
+					continue
+				}
+				n++
+				// nil on some edge?
+				var nilEdge func(v ssa.Value, depth int) bool
+				nilEdge = func(v ssa.Value, depth int) bool {
+					if depth > 4 {
+						return false
+					}
+					switch x := v.(type) {
+					case *ssa.Const:
+						return x.IsNil()
+					case *ssa.Phi:
+						for _, e := range x.Edges {
+							if nilEdge(e, depth+1) {
+								return true
+							}
+						}
+					}
+					return false
+				}
+				if _, isPhi := mu.Map.(*ssa.Phi); !isPhi {
+					if k, isConst := mu.Map.(*ssa.Const); !isConst || !k.IsNil() {
+						continue
+					}
+				}
+				nphi++
+				if !nilEdge(mu.Map, 0) {
+					continue
+				}
+				guarded := false
+				for _, g := range GuardsAt(b) {
+					if cmp, ok := g.Cond.(*ssa.BinOp); ok && cmp.X == mu.Map {
+						if k, ok := cmp.Y.(*ssa.Const); ok && k.IsNil() {
+							if (cmp.Op == token.NEQ && g.Polarity) || (cmp.Op == token.EQL && !g.Polarity) {
+								guarded = true
+							}
+						}
+					}
+				}
+				idx++
+				r.Check(guarded, "R18.11", fmt.Sprintf("%s: map update #%d", SSAName(fn), idx), c.Rel(mu.Pos()), "dominated by m != nil",
+					fmt.Sprintf("%s writes to a map at %s that is the nil constant on one of the edges merging into it, with no m != nil test before the write: on that path the write is a Go panic (assignment to entry in nil map)", SSAName(fn), c.Rel(mu.Pos())))
+			}
+		}
+	}
+	r.OK("R18.11", "map updates scanned", "", fmt.Sprintf("%d map updates, %d of them on a merged value", n, nphi))
+	r.Floor("R18.11", "map updates scanned", n, 150)
+}
